@@ -145,6 +145,23 @@ theorem C15_forms_agree (op : Op) (a b : Int) : applyFolded op a b = apply op a 
     · simp only [h, if_false]; cases checked (Int.tdiv a b) <;> rfl
   · cases pow a b <;> rfl
 
+/-- A chain `(x op1 c1) op2 c2` is exact or fails exactly where the FIRST inexact step is: when the
+    intermediate result does not fit, the chain stops with that error whatever `c2` would have
+    brought back into range. -/
+theorem C15_chain_spec (op1 op2 : Op) (x c1 c2 : Int) :
+    (∀ y, apply op1 x c1 = .val y → chain op1 op2 x c1 c2 = apply op2 y c2) ∧
+    (apply op1 x c1 = .overflow → chain op1 op2 x c1 c2 = .overflow) ∧
+    (apply op1 x c1 = .divZero → chain op1 op2 x c1 c2 = .divZero) := by
+  refine ⟨?_, ?_, ?_⟩ <;> intro h <;> (try intro h') <;> simp_all [chain]
+
+/-- Checked addition is not associative: folding the two constants of `x + c1 + c2` into `x + (c1 + c2)`
+    (a tempting peephole rule, guarded or not by `c1 + c2` fitting) loses the overflow of the
+    intermediate sum.  This is why the optimizer model has no such rule, and the point a seeded
+    reassociation rule fails at. -/
+theorem C15_reassociation_counterexample :
+    chain .add .add MAX 1 (-1) = .overflow ∧ add MAX (1 + -1) = .val MAX ∧ inRange (1 + -1) = true ∧
+    chain .add .add (MIN + 1) (-2) 5 = .overflow ∧ add (MIN + 1) (-2 + 5) = .val (MIN + 4) := by decide
+
 /-! Non-vacuity: the boundary points at which the unrepaired code failed are covered by the
     hypotheses (in-range operands) and give the documented answers. -/
 example : div MIN (-1) = .overflow := by decide
